@@ -277,6 +277,10 @@ func CapacityOracle(props ...string) clustermc.Oracle {
 		multiDev := map[string]bool{}
 		boundOnce := map[string]int{}
 		touched := map[string]bool{} // devices this cycle's binds were attached to
+		// contributed[node][resource]: a pod bound in this cycle asks for the resource. A node that
+		// was over-full in a resource before the cycle, to which the scheduler adds nothing of that
+		// resource, is not the scheduler's decision.
+		contributed := map[string]map[string]bool{}
 		for _, d := range t.Res.Decisions {
 			if d.Kind != "bind" {
 				continue
@@ -321,6 +325,21 @@ func CapacityOracle(props ...string) clustermc.Oracle {
 				}
 			}
 			u.add(p, d.GPUGroups, mem[d.Node], "(bind)")
+			if contributed[d.Node] == nil {
+				contributed[d.Node] = map[string]bool{}
+			}
+			contributed[d.Node]["pods"] = true
+			if r.MilliCPU > 0 {
+				contributed[d.Node]["cpu"] = true
+			}
+			if r.Memory > 0 {
+				contributed[d.Node]["memory"] = true
+			}
+			for k, v := range r.Extended {
+				if v > 0 {
+					contributed[d.Node][k] = true
+				}
+			}
 			for _, g := range d.GPUGroups {
 				touched[g] = true
 				if !preGroups[g] {
@@ -349,6 +368,10 @@ func CapacityOracle(props ...string) clustermc.Oracle {
 				continue // the scheduler added nothing here: an over-full node is not its decision
 			}
 			check := func(res string, used, capacity int64) {
+				if used > capacity && !contributed[n.Name][res] {
+					t.Stats["nodes_overfull_before_the_cycle_in_a_resource_no_bind_asked_for"]++
+					return
+				}
 				if used > capacity {
 					out = append(out, engine.Violation{Property: "C01", Key: fmt.Sprintf("C01/oversubscribed res=%s", res),
 						Message: fmt.Sprintf("node %s %s: occupying+bound=%d > allocatable=%d; members=%v (pods only releasing: %v)", n.Name, res, used, capacity, u.members, keys(releasing))})
